@@ -1,6 +1,7 @@
 package main
 
 import (
+	"regexp"
 	"fmt"
 	"go/token"
 	"go/types"
@@ -84,8 +85,20 @@ type Engine struct {
 	fset *token.FileSet
 }
 
+var aliasRe = regexp.MustCompile(`\b(byte|rune)\b`)
+
+// typeKey: canonical name of a type; byte/uint8 and rune/int32 are the same type and must get the same heaps and tags.
 func typeKey(t types.Type) string {
-	return types.TypeString(t, func(p *types.Package) string { return p.Name() })
+	s := types.TypeString(t, func(p *types.Package) string { return p.Name() })
+	if strings.Contains(s, "byte") || strings.Contains(s, "rune") {
+		s = aliasRe.ReplaceAllStringFunc(s, func(m string) string {
+			if m == "byte" {
+				return "uint8"
+			}
+			return "int32"
+		})
+	}
+	return s
 }
 
 func (e *Engine) freshName(prefix string) string {
@@ -457,6 +470,7 @@ func (e *Engine) needBytes() {
 	e.d.addAxiom("assoc_r", "cat_assoc_r", "(forall ((a Bytes) (b Bytes) (c Bytes)) (! (= (bcat (bcat a b) c) (bcat a (bcat b c))) :pattern ((bcat (bcat a b) c))))")
 	ax("take_cat_l", "(forall ((a Bytes) (b Bytes) (n Int)) (! (=> (and (<= 0 n) (<= n (blen a))) (= (btake (bcat a b) n) (btake a n))) :pattern ((btake (bcat a b) n))))")
 	ax("drop_cat_r", "(forall ((a Bytes) (b Bytes) (n Int)) (! (=> (and (<= (blen a) n) (<= n (+ (blen a) (blen b)))) (= (bdrop (bcat a b) n) (bdrop b (- n (blen a))))) :pattern ((bdrop (bcat a b) n))))")
+	e.d.addAxiom("bytes_split", "take_split", "(forall ((a Bytes) (n Int) (m Int)) (! (=> (and (<= 0 n) (<= n m) (<= m (blen a))) (= (btake a m) (bcat (btake a n) (btake (bdrop a n) (- m n))))) :pattern ((btake a m) (bdrop a n))))")
 	ax("drop_all", "(forall ((a Bytes)) (! (= (bdrop a (blen a)) bempty) :pattern ((bdrop a (blen a)))))")
 	ax("cat_empty_r", "(forall ((a Bytes)) (! (= (bcat a bempty) a) :pattern ((bcat a bempty))))")
 	ax("cat_empty_l", "(forall ((a Bytes)) (! (= (bcat bempty a) a) :pattern ((bcat bempty a))))")
